@@ -76,10 +76,19 @@ def run(ck, models, tier):
                               "copy count %s vs length of the source slice %s" % (fmt(cnt.e), fmt(sl.e) if sl is not None else "unknown"), where(ev))
                         ck.ob("R3.4", "%s/entry-length" % rn, tm.target, cnt.is_const() and cnt.cval() <= 16, "entry write length %s (limit 16)" % fmt(cnt.e), where(ev))
                 if v.status == "returned":
-                    na = len(alloc_events(v))
-                    want = 0 if tm.arch == "arm" else 1
-                    ck.ob("R3.6", "%s/one-mapping-per-install" % rn, tm.target, na == want,
-                          "normal path performs %d allocation(s) (expected %d)" % (na, want))
+                    al_ = alloc_events(v)
+                    na = len(al_)
+                    most = 0 if tm.arch == "arm" else 1
+                    ck.ob("R3.6", "%s/at-most-one-mapping-per-install" % rn, tm.target, na <= most,
+                          "normal path performs %d allocation(s) (at most %d)" % (na, most))
+                    # the mapping the guard will release is this installation's own allocation, or none at all
+                    if g.jit_ptr:
+                        for pev, gv, cont in pushed_guards(v, g.adt):
+                            jp = guard_field(gv, None, g.jit_ptr)
+                            own = isinstance(jp, Int) and ((jp.is_const() and jp.cval() == 0) or any(isinstance(a_.ret, Int) and same_expr(jp.e, a_.ret.e) for a_ in al_))
+                            ck.ob("R3.7", "%s/guard-releases-own-mapping-or-nothing" % rn, tm.target, own,
+                                  "the guard stored by this installation will release %s (allocations made here: %s)" % (
+                                      fmt(jp.e, 4) if isinstance(jp, Int) else jp, [fmt(a_.ret.e, 3) for a_ in al_ if isinstance(a_.ret, Int)]), where(pev))
         if tm.arch == "arm":
             for p, func, repl, boolval in roots:
                 for cls in ARM_CLASSES:
